@@ -222,6 +222,10 @@ class EvalMixin:
         v = node.value
         if v is Ellipsis:
             raise Unsupported('Ellipsis')
+        if isinstance(v, bytes) and getattr(self.world, 'abstract_bytes', None) is not None:
+            # byte strings as abstract values (equality, concatenation and
+            # slicing by uninterpreted functions): see pyvc/absbytes.py
+            return self.world.abstract_bytes.const(self, v)
         return lift(v)
 
     def ev_Name(self, node):
@@ -375,6 +379,9 @@ class EvalMixin:
                     return mk_int(ca.as_long() ** cb.as_long())
             raise Unsupported('binary operator %s' % type(op).__name__)
         if isinstance(op, ast.Add):
+            if getattr(self.world, 'abstract_bytes', None) is not None and isinstance(a, SV) and a.shape is ValS \
+                    and isinstance(b, SV) and b.shape is ValS:
+                return self.world.abstract_bytes.cat(self, a, b)
             if isinstance(a, SBytes) and isinstance(b, SBytes):
                 return self.bytes_concat(a, b)
             if isinstance(a, STup) and isinstance(b, STup):
@@ -658,6 +665,8 @@ class EvalMixin:
                 raise Unsupported('symbolic slice of a concrete tuple')
             items = obj.items[l:h]
             return STup(items) if isinstance(obj, STup) else PyList(items)
+        if getattr(self.world, 'abstract_bytes', None) is not None and isinstance(obj, SV) and obj.shape is ValS:
+            return self.world.abstract_bytes.slice(self, obj, lo, hi)
         if isinstance(obj, SBytes):
             a = self.clamp(lo, obj.len, z3.IntVal(0))
             b = self.clamp(hi, obj.len, obj.len)
